@@ -275,12 +275,9 @@ def rule_read(c, prog):
         c.violation(R, "unknown-type", "read_value_xml no longer skips unknown type elements with eat_unknown_tag", rv.sp, instance="unknown-type:eaten")
 
 
-def rule_cr(c, prog, R="C05.cr"):
-    """XML 1.0 section 2.11: a parser hands the application LF for every literal CR LF and lone CR, inside CDATA too.  A
-    CR in a value therefore survives an independent parser only when written as the character reference &#13; outside
-    CDATA.  xml-rs (trusted, DESIGN section 7) escapes & < > in character data and nothing in CDATA, so the function
-    that hands text to it has to treat CR itself."""
-    c.rule(R, "a function that hands non-constant text to xml-rs as character data or CDATA (XmlEvent::characters / ::cdata) tests that text for a carriage return (a '\\r' / \"&#13;\" / 0x0D literal or a control-character test on its path): xml-rs writes CR as a raw byte, which every conformant XML parser reads back as LF")
+def text_sinks(prog):
+    """{fn path: (fn, [call nodes])} — functions of rbx_xml that hand a string parameter of theirs to xml-rs as character
+    data or CDATA"""
     sinks = []
     for f in prog.lib_fns():
         if f.crate != "rbx_xml" or f.body is None:
@@ -298,14 +295,23 @@ def rule_cr(c, prog, R="C05.cr"):
     byfn = {}
     for f, x in sinks:
         byfn.setdefault(f.path, (f, []))[1].append(x)
+    return byfn
+
+
+def rule_cr(c, prog, R="C05.cr"):
+    """XML 1.0 section 2.11: a parser hands the application LF for every literal CR LF and lone CR, inside CDATA too.  A
+    CR in a value therefore survives an independent parser only when written as the character reference &#13; outside
+    CDATA.  xml-rs (trusted, DESIGN section 7) escapes & < > in character data and nothing in CDATA, so the function
+    that hands text to it has to treat CR itself."""
+    c.rule(R, "a function that hands non-constant text to xml-rs as character data or CDATA (XmlEvent::characters / ::cdata) tests that text for a carriage return (a '\\r' / \"&#13;\" / 0x0D literal or a control-character test on its path): xml-rs writes CR as a raw byte, which every conformant XML parser reads back as LF")
+    byfn = text_sinks(prog)
     c.floor(R, len(byfn), 1, "functions handing caller-chosen text to xml-rs")
 
     def mentions_cr(fn, depth=2):
+        for v in core.all_lits(fn.body):
+            if v in ("\r", 13, "&#13;", "&#xD;", "&#xd;") or (isinstance(v, str) and ("\r" in v or "&#13;" in v or "&#xD;" in v.upper().replace("&#XD;", "&#xD;"))):
+                return True
         for y in core.walk_fn(fn):
-            if y.get("k") == "Lit":
-                v = (y.get("lit") or {}).get("v")
-                if v in ("\r", 13, "&#13;", "&#xD;", "&#xd;") or (isinstance(v, str) and ("\r" in v or "&#13;" in v or "&#xD;" in v.upper().replace("&#XD;", "&#xD;"))):
-                    return True
             if y.get("k") == "MethodCall" and y["m"] in ("is_control", "is_ascii_control"):
                 return True
             if depth and y.get("k") in ("Call", "MethodCall"):
@@ -320,6 +326,38 @@ def rule_cr(c, prog, R="C05.cr"):
         else:
             kinds = sorted({(core.callee(x) or "").rsplit("::", 1)[-1] for x in xs})
             c.violation(R, f"{path}|raw-cr", f"{path} passes its text to xml-rs as {' / '.join(kinds)} without looking for a carriage return: a value containing CR (a script source with CRLF line endings, a name, a URI) is written as the raw byte 0x0D, which an independent XML parser normalises to LF — the document reads back to a different string", core.loc(xs[0]), instance=inst)
+
+
+def rule_chars(c, prog, R="C06.chars"):
+    """XML 1.0 section 2.2: U+0000-U+0008, U+000B, U+000C, U+000E-U+001F, U+FFFE and U+FFFF are not characters of any
+    document, escaped or not.  Roblox strings are byte strings and rbx_binary stores them as they are; text containing
+    one of those can only be written to XML by refusing it or by spelling it some other way, and either needs the
+    function that hands the text to xml-rs (which writes it raw) to look for them."""
+    c.rule(R, "a function that hands caller-chosen text to xml-rs as character data or CDATA looks at every character of it for the ones XML 1.0 cannot carry (a control-character test, or a comparison with a literal below U+0020 other than tab / LF / CR, on its path): otherwise the writer reports success on a document no XML parser accepts — its own reader included — for a string rbx_binary round-trips")
+    byfn = text_sinks(prog)
+    c.floor(R, len(byfn), 1, "functions handing caller-chosen text to xml-rs")
+
+    def looks(fn, depth=2):
+        scans = any(z.get("k") == "MethodCall" and z["m"] in ("chars", "bytes", "char_indices", "as_bytes") for z in core.walk_fn(fn))
+        for v in core.all_lits(fn.body):
+            if isinstance(v, str) and len(v) == 1 and (ord(v) < 0x20 and v not in "\t\n\r" or v in "\ufffe\uffff"):
+                return True
+            if isinstance(v, int) and not isinstance(v, bool) and v in (0x20, 0x1F, 0xFFFE, 0xFFFF, 0xFFFD) and scans:
+                return True
+        for y in core.walk_fn(fn):
+            if y.get("k") == "MethodCall" and y["m"] in ("is_control", "is_ascii_control"):
+                return True
+            if depth and y.get("k") in ("Call", "MethodCall"):
+                g = prog.fns.get(core.callee(y) or "")
+                if g is not None and g.crate == "rbx_xml" and g.body is not None and g.path != fn.path and looks(g, depth - 1):
+                    return True
+        return False
+    for path, (f, xs) in sorted(byfn.items()):
+        inst = f"{path}|xml-chars"
+        if looks(f):
+            c.ok(R, inst)
+        else:
+            c.violation(R, f"{path}|unrepresentable-chars", f"{path} passes its text to xml-rs without looking for the characters XML 1.0 cannot carry: a String value or Name containing U+0001 (or NUL, U+000B, U+FFFE …) — legal in a Roblox string, round-tripped by rbx_binary — is written raw, the encode reports success, and the document is rejected by every XML parser including rbx_xml's own reader: the XML encoding of that DOM does not decode at all", core.loc(xs[0]), instance=inst)
 
 
 def rule_scratch(c, prog, R="C05.scratch"):
